@@ -1,1 +1,163 @@
-From Coq Require Import ZArith.
+(* C11 — completeness of ratrecon inside the uniqueness envelope.
+   The consecutive pairs (r0,t0), (r1,t1) of the remainder sequence form a basis of the lattice
+   { (r,t) : r == t F (mod m) } of determinant +-m; a lattice vector (a,b) with |a| m + b k^2 <= k m
+   has determinant of absolute value < m with (r1,t1), hence is a multiple of it; gcd(a,b) = 1 and b > 0
+   make it the normalised first candidate. *)
+From Coq Require Import ZArith Lia Bool Znumtheory.
+From C11 Require Import Model ProofsLoop ProofsSound.
+Local Open Scope Z_scope.
+Ltac Zify.zify_post_hook ::= Z.div_mod_to_equations.
+
+Definition Basis (F m r0 t0 r1 t1 : Z) : Prop :=
+  forall r t, cong m r (t * F) -> exists x y, r = x * r0 + y * r1 /\ t = x * t0 + y * t1.
+
+Lemma Basis_init F m : Basis F m m 0 F 1.
+Proof. intros r t [c H]. exists c, t. split; lia. Qed.
+
+Lemma Basis_step F m r0 t0 r1 t1 q : Basis F m r0 t0 r1 t1 -> Basis F m r1 t1 (r0 - r1 * q) (t0 - t1 * q).
+Proof.
+  intros B r t H. destruct (B r t H) as (x & y & Hr & Ht).
+  exists (y + x * q), x. split; lia.
+Qed.
+
+Lemma loop_basis F m k : forall fuel r0 t0 r1 t1 s,
+  Basis F m r0 t0 r1 t1 -> loop fuel k r0 t0 r1 t1 = Some s ->
+  let '(r0', t0', r1', t1') := s in Basis F m r0' t0' r1' t1'.
+Proof.
+  intros fuel; induction fuel as [|n IH]; intros r0 t0 r1 t1 s HB; cbn [loop];
+    destruct (r1 >=? k); intros E; try discriminate.
+  - inversion E; subst; assumption.
+  - eapply IH; [|exact E]. apply Basis_step; assumption.
+  - inversion E; subst; assumption.
+Qed.
+
+(* signed form of the determinant invariant *)
+Lemma Inv_det_signed F m k r0 t0 r1 t1 : Inv F m k r0 t0 r1 t1 ->
+  r0 * t1 - r1 * t0 = m \/ r0 * t1 - r1 * t0 = - m.
+Proof.
+  intros [c0 c1 det sgn hr1 hr0 ht0 ht1].
+  destruct (Z.lt_trichotomy t1 0) as [N|[N|N]]; destruct (Z.lt_trichotomy t0 0) as [N0|[N0|N0]]; subst; try nia.
+Qed.
+
+Lemma abs_mul_lt_zero x m : 0 < m -> Z.abs (x * m) < m -> x = 0.
+Proof. intros Hm H. destruct (Z.eq_dec x 0); [assumption|]. exfalso. nia. Qed.
+
+(* the candidate left by the loop is +-(a,b) *)
+Lemma envelope_candidate F m k r0 t0 r1 t1 a b :
+  0 < m -> 1 <= k -> Inv F m k r0 t0 r1 t1 -> Basis F m r0 t0 r1 t1 -> r1 < k ->
+  0 < b -> Z.gcd a b = 1 -> cong m a (b * F) ->
+  Z.abs a * m + b * k * k <= k * m ->
+  (r1 = a /\ t1 = b) \/ (r1 = - a /\ t1 = - b).
+Proof.
+  intros Hm Hk HI HB Hlt Hb Hg Hc Hsz.
+  destruct (Inv_det_signed _ _ _ _ _ _ _ HI) as [HD|HD];
+  destruct HI as [c0 c1 det sgn hr1 hr0 ht0 ht1];
+  destruct (HB a b Hc) as (x & y & Ha & Hb').
+  all: assert (Hkt : k * Z.abs t1 <= m) by
+         (assert (0 <= r1 * Z.abs t0) by (apply Z.mul_nonneg_nonneg; lia);
+          assert (k * Z.abs t1 <= r0 * Z.abs t1) by (apply Z.mul_le_mono_nonneg_r; lia); lia).
+  all: assert (Hsize : Z.abs (a * t1 - b * r1) < m).
+  1,3: assert (H1 : k * (Z.abs a * Z.abs t1) <= Z.abs a * m)
+         by (replace (k * (Z.abs a * Z.abs t1)) with (Z.abs a * (k * Z.abs t1)) by lia;
+             apply Z.mul_le_mono_nonneg_l; lia);
+       assert (H2 : k * (b * r1) <= b * k * (k - 1))
+         by (replace (k * (b * r1)) with (b * k * r1) by lia; apply Z.mul_le_mono_nonneg_l; nia);
+       assert (H3 : k * (Z.abs a * Z.abs t1 + b * r1) < k * m) by nia;
+       assert (H4 : Z.abs a * Z.abs t1 + b * r1 < m) by nia;
+       assert (H5 : Z.abs (a * t1) = Z.abs a * Z.abs t1) by apply Z.abs_mul;
+       assert (H6 : 0 <= b * r1) by nia;
+       lia.
+  - assert (Hx : a * t1 - b * r1 = x * m) by (rewrite <- HD, Ha, Hb'; ring).
+    rewrite Hx in Hsize. apply abs_mul_lt_zero in Hsize; [|lia]. subst x.
+    assert (Ha' : a = y * r1) by lia. assert (Hb'' : b = y * t1) by lia.
+    rewrite Ha', Hb'' in Hg. rewrite Z.gcd_mul_mono_l in Hg.
+    pose proof (Z.gcd_nonneg r1 t1).
+    assert (Hy : Z.abs y = 1) by nia.
+    destruct (Z.abs_eq_cases y 1 ltac:(lia)) as [Y|Y].
+    + left; split; lia.
+    + right; split; lia.
+  - assert (Hx : a * t1 - b * r1 = (- x) * m) by (replace (- x * m) with (x * - m) by lia; rewrite <- HD, Ha, Hb'; ring).
+    rewrite Hx in Hsize. apply abs_mul_lt_zero in Hsize; [|lia]. assert (x = 0) by lia. subst x.
+    assert (Ha' : a = y * r1) by lia. assert (Hb'' : b = y * t1) by lia.
+    rewrite Ha', Hb'' in Hg. rewrite Z.gcd_mul_mono_l in Hg.
+    pose proof (Z.gcd_nonneg r1 t1).
+    assert (Hy : Z.abs y = 1) by nia.
+    destruct (Z.abs_eq_cases y 1 ltac:(lia)) as [Y|Y].
+    + left; split; lia.
+    + right; split; lia.
+Qed.
+
+Lemma finish_first f m k fr r0 t0 r1 t1 a b :
+  0 < b -> Z.gcd a b = 1 -> (r1 = a /\ t1 = b) \/ (r1 = - a /\ t1 = - b) ->
+  finish f m k fr (r0, t0, r1, t1) = (true, a, b).
+Proof.
+  intros Hb Hg H. unfold finish.
+  assert (Hn : norm_num r1 t1 = a) by (unfold norm_num; destruct H as [[-> ->]|[-> ->]]; destruct (Z.ltb_spec b 0), (Z.ltb_spec (- b) 0); lia).
+  assert (Hd : norm_den t1 = b) by (unfold norm_den; destruct H as [[-> ->]|[-> ->]]; destruct (Z.ltb_spec b 0), (Z.ltb_spec (- b) 0); lia).
+  rewrite Hn, Hd, Hg. cbn. destruct fr; reflexivity.
+Qed.
+
+(* completeness for an arbitrary bound k: any coprime pair (a, b), b > 0, a == b f (mod m), with
+   |a| m + b k^2 <= k m  is what ratrecon returns (with or without the request for a reduced fraction) *)
+Definition Ratrecon_complete := forall f m k fr a b, 2 <= m -> 1 <= k <= m ->
+  0 < b -> Z.gcd a b = 1 -> cong m a (b * f) ->
+  Z.abs a * m + b * k * k <= k * m ->
+  ratrecon f m k fr = Some (true, a, b).
+Lemma ratrecon_complete : Ratrecon_complete.
+Proof.
+  intros f m k fr a b Hm Hk Hb Hg Hc Hsz.
+  pose proof (ratrecon_total f m k fr Hm (proj1 Hk)) as T.
+  unfold ratrecon, ratrecon_fuel in *.
+  destruct (init_r1_spec f m ltac:(lia)) as [H0 HF].
+  destruct (loop (fuel_of m) k m 0 (init_r1 f m) 1) as [s|] eqn:E; [|congruence].
+  pose proof (loop_inv (init_r1 f m) m k (proj1 Hk) _ _ _ _ _ _ (Inv_init _ m k H0 Hk) E) as HI.
+  pose proof (loop_basis (init_r1 f m) m k _ _ _ _ _ _ (Basis_init _ m) E) as HB.
+  destruct s as [[[r0 t0] r1] t1]. destruct HI as [HI Hlt].
+  f_equal. apply finish_first; try assumption.
+  eapply envelope_candidate; eauto; try lia.
+  (* a == b f  and  F == f  give  a == b F *)
+  eapply cong_trans; [exact Hc|]. apply cong_mul_l.
+  destruct HF as [c H]. exists (- c). lia.
+Qed.
+
+(* the property's envelope: |a|, b <= sqrt(m)/4 and the default bound k = sqrt m *)
+Lemma envelope_size m a b : 1 <= m -> 0 < b -> 4 * Z.abs a <= Z.sqrt m -> 4 * b <= Z.sqrt m ->
+  Z.abs a * m + b * Z.sqrt m * Z.sqrt m <= Z.sqrt m * m.
+Proof.
+  intros Hm Hb Ha Hb'. pose proof (Z.sqrt_spec m ltac:(lia)) as S. unfold Z.succ in S.
+  set (s := Z.sqrt m) in *.
+  assert (4 * (Z.abs a * m) <= s * m) by (replace (4 * (Z.abs a * m)) with (4 * Z.abs a * m) by lia; apply Z.mul_le_mono_nonneg_r; lia).
+  assert (4 * (b * s * s) <= s * (s * s)) by (replace (4 * (b * s * s)) with (4 * b * (s * s)) by lia; apply Z.mul_le_mono_nonneg_r; nia).
+  assert (s * (s * s) <= s * m) by (apply Z.mul_le_mono_nonneg_l; lia).
+  assert (0 <= s * m) by nia.
+  lia.
+Qed.
+
+Definition RR4_complete := forall f m a b, 2 <= m ->
+  0 < b -> Z.gcd a b = 1 -> cong m a (b * f) ->
+  4 * Z.abs a <= Z.sqrt m -> 4 * b <= Z.sqrt m ->
+  RR4 f m = Some (true, a, b).
+Lemma rr4_complete : RR4_complete.
+Proof.
+  intros f m a b Hm Hb Hg Hc Ha Hb'. unfold RR4.
+  apply ratrecon_complete; try assumption.
+  - apply sqrt_range; lia.
+  - apply envelope_size; (assumption || lia).
+Qed.
+
+(* in the form of the property text: f = a * b^-1 mod m, where binv is any inverse of b modulo m *)
+Definition RR4_complete_inverse := forall m a b binv, 2 <= m ->
+  0 < b -> Z.gcd a b = 1 -> cong m (b * binv) 1 ->
+  4 * Z.abs a <= Z.sqrt m -> 4 * b <= Z.sqrt m ->
+  RR4 ((a * binv) mod m) m = Some (true, a, b).
+Lemma rr4_complete_inverse : RR4_complete_inverse.
+Proof.
+  intros m a b binv Hm Hb Hg [c Hi] Ha Hb'.
+  apply rr4_complete; try assumption.
+  exists (- (a * c) + b * ((a * binv) / m)).
+  rewrite Z.mod_eq by lia. nia.
+Qed.
+
+(* the hypotheses are satisfiable: 3/7 modulo 1009 (sqrt = 31, 4*7 <= 31), 7 * 865 = 6 * 1009 + 1 *)
+Example envelope_example : RR4 ((3 * 865) mod 1009) 1009 = Some (true, 3, 7).
+Proof. vm_compute. reflexivity. Qed.
